@@ -39,7 +39,10 @@ def run(chk: Check):
             viol(f"AKAI byte {b}: decodes to {got}, specification {want}", {"codec": "akai", "byte": b})
         else:
             if want >= 0:
-                back = char_ascii_to_akai(chr(want))
+                try:
+                    back = char_ascii_to_akai(chr(want))
+                except Exception as e:  # noqa - a valid character that cannot be encoded back is the observation
+                    back = f"{type(e).__name__}".encode()
                 if back != bytes([b]):
                     viol(f"AKAI byte {b} -> {chr(want)!r} -> {list(back)}", {"codec": "akai", "byte": b})
                     continue
@@ -89,9 +92,12 @@ def run(chk: Check):
     for i in range(4000 if chk.tier == "thorough" else 600):
         s = "".join(rng.choice(alphabet) for _ in range(rng.randint(0, 12)))
         chk.evaluated(("str", s))
-        enc = char_ascii_to_akai(s)
-        dec = char_akai_to_ascii(enc)
-        field = ps.parse(ps.build(s))
+        try:
+            enc = char_ascii_to_akai(s)
+            dec = char_akai_to_ascii(enc)
+            field = ps.parse(ps.build(s))
+        except Exception as e:  # noqa
+            dec = field = f"<{type(e).__name__}>"
         if dec != s or field != s.rstrip(" "):
             viol(f"AKAI string {s!r}: decode(encode) = {dec!r}, padded field = {field!r}", {"codec": "str", "s": s})
         else:
